@@ -26,6 +26,24 @@ Definition dec_hsop (l : list Z) : option sop :=
   | [5; k] => Some (SContains k)
   | [6; k] => Some (SRemove k)
   | [7] => Some SPurge
+  | [25] => Some SClone
+  | [30; k; v] => Some (SPutProtected k v)
+  | _ => None
+  end.
+
+(** the per-segment accessors: [peek_lru/mru(_mut)_from_*], [remove_lru_from_*] *)
+Definition dec_seg (l : list Z) : option (bool * hop) :=
+  match l with
+  | [31] => Some (false, HPeekLru None)
+  | [32; f; w] => Some (false, HPeekLru (dec_w f w))
+  | [33] => Some (false, HPeekMru None)
+  | [34; f; w] => Some (false, HPeekMru (dec_w f w))
+  | [35] => Some (true, HPeekLru None)
+  | [36; f; w] => Some (true, HPeekLru (dec_w f w))
+  | [37] => Some (true, HPeekMru None)
+  | [38; f; w] => Some (true, HPeekMru (dec_w f w))
+  | [39] => Some (false, HRemoveLru)
+  | [40] => Some (true, HRemoveLru)
   | _ => None
   end.
 
@@ -38,7 +56,19 @@ Definition hsstep_enc (s : hsstate) (o : list Z) : option (hsstate * list Z * li
     | [8] => Some (s, [zn (hslen (hss_s s))], [0])
     | [9] => Some (s, [zn (hcap (hprot (hss_s s)) + hcap (hprob (hss_s s)))], [0])
     | [10] => Some (s, [zb (Nat.eqb (length (hidx (hprot (hss_s s)))) 0 && Nat.eqb (length (hidx (hprob (hss_s s)))) 0)], [0])
-    | _ => None
+    | [41] => Some (s, [zn (length (hidx (hprot (hss_s s))))], [0])
+    | [42] => Some (s, [zn (length (hidx (hprob (hss_s s))))], [0])
+    | [43] => Some (s, [zn (hcap (hprob (hss_s s)))], [0])
+    | [44] => Some (s, [zn (hcap (hprot (hss_s s)))], [0])
+    | _ =>
+      match dec_seg o with
+      | Some (p, op) =>
+        match hs_seg (hss_h s) (hss_s s) p op with
+        | HOk (h1, s1, r) => Some (mkHsstate h1 s1, enc_hout r, [0])
+        | HErr e => Some (s, [-2000; herr_code e], [0])
+        end
+      | None => None
+      end
     end
   | Some op =>
     match hs_step (hss_h s) (hss_s s) op with
